@@ -4,7 +4,7 @@ import warnings
 from harness.core import Result  # noqa: F401
 
 COMPONENTS = ["partitioner"]  # model drivers this check needs (lake targets model_<c>)
-CONSTS = ["partitioner", "client"]  # C18_listing_* are about Afkak.ClientCache.mergeTopic (imports the client's generated constants)
+CONSTS = ["partitioner", "partgen", "client"]  # C18_listing_* are about Afkak.ClientCache.mergeTopic (imports the client's generated constants)
 TRUSTED = [
     "Java murmur2 transcription (Afkak/Murmur.lean: murmur2Java), tested against the Java client's own UtilsTest vectors by `decide +kernel`",
     "model of sorted()/itertools.cycle as insertion sort / rotating list",
